@@ -1,11 +1,49 @@
+import TabulaModel.Handlers.C01
+import TabulaModel.Handlers.C02
+import TabulaModel.Handlers.C03
+import TabulaModel.Handlers.C04
+import TabulaModel.Handlers.C05
+import TabulaModel.Handlers.C06
+import TabulaModel.Handlers.C07
+import TabulaModel.Handlers.C08
+import TabulaModel.Handlers.C09
+import TabulaModel.Handlers.C10
+import TabulaModel.Handlers.C11
+import TabulaModel.Handlers.C12
+import TabulaModel.Handlers.C13
+import TabulaModel.Handlers.C14
+import TabulaModel.Handlers.C15
+import TabulaModel.Handlers.C16
 import TabulaModel.Handlers.C17
+import TabulaModel.Handlers.C18
+import TabulaModel.Handlers.C19
+import TabulaModel.Handlers.C20
 open Tabula
 
 def dispatch (line : String) : String :=
   match splitArgs line with
   | [] => "bad-op"
   | op :: args =>
-    if op.startsWith "c17." then C17H.handle op args
+    if op.startsWith "c01." then C01H.handle op args
+    else if op.startsWith "c02." then C02H.handle op args
+    else if op.startsWith "c03." then C03H.handle op args
+    else if op.startsWith "c04." then C04H.handle op args
+    else if op.startsWith "c05." then C05H.handle op args
+    else if op.startsWith "c06." then C06H.handle op args
+    else if op.startsWith "c07." then C07H.handle op args
+    else if op.startsWith "c08." then C08H.handle op args
+    else if op.startsWith "c09." then C09H.handle op args
+    else if op.startsWith "c10." then C10H.handle op args
+    else if op.startsWith "c11." then C11H.handle op args
+    else if op.startsWith "c12." then C12H.handle op args
+    else if op.startsWith "c13." then C13H.handle op args
+    else if op.startsWith "c14." then C14H.handle op args
+    else if op.startsWith "c15." then C15H.handle op args
+    else if op.startsWith "c16." then C16H.handle op args
+    else if op.startsWith "c17." then C17H.handle op args
+    else if op.startsWith "c18." then C18H.handle op args
+    else if op.startsWith "c19." then C19H.handle op args
+    else if op.startsWith "c20." then C20H.handle op args
     else "bad-op"
 
 partial def loop (h : IO.FS.Stream) (out : IO.FS.Stream) : IO Unit := do
